@@ -114,7 +114,7 @@ def sadd (s : List String) (n : String) : List String := if s.contains n then s 
 
 inductive Err
   | valueError | keyError | missingComponent | invalidFontData | attributeError | zeroDivision
-  | exception | recursion
+  | exception | recursion | statistics
   deriving DecidableEq, Repr
 
 /-! ### BaseFilter.__init__: the include predicate -/
